@@ -363,9 +363,10 @@ func runC09(p *Prog, r *Report) {
 		need := []string{"$info1.Self == $info2.Peer", "$info2.Self == $info1.Peer", "φs1 != nil", "φs2 != nil"}
 		ok := len(gos) == 2
 		missing := ""
+		bind := map[string]string{} // the same four locals in every literal of this rule
 		for _, g := range gos {
 			for _, n := range need {
-				if !hasAtom(g.Guard, n) {
+				if !hasAtomB(g.Guard, n, bind) {
 					ok = false
 					missing = n
 				}
@@ -383,8 +384,8 @@ func runC09(p *Prog, r *Report) {
 		}
 		r.Check(ok, R, "validation-dominates-forwarders", gos.Pos(p), "both forwarders are spawned only after all validations", "a forwarder is spawned without the validation `"+missing+"`")
 		if len(gos) == 2 {
-			r.Check(gos[0].Args[0] == "φs1" && gos[0].Args[1] == "φs2" && gos[1].Args[0] == "φs2" && gos[1].Args[1] == "φs1", R, "directions", gos.Pos(p), "forwarder(s1,s2) and forwarder(s2,s1)", "the two forwarders do not connect s1->s2 and s2->s1: "+argsOf(gos))
-			r.Check(hasAtom(gos[1].Guard, "φs2 != φs1") && !hasAtom(gos[0].Guard, "φs2 != φs1"), R, "second-direction-iff-distinct", gos.Pos(p), "second direction only when s1 != s2", "the reverse forwarder is not conditional on s2 != s1 (a loopback device would forward twice)")
+			r.Check(litUnify(gos[0].Args[0], "φs1", bind) && litUnify(gos[0].Args[1], "φs2", bind) && litUnify(gos[1].Args[0], "φs2", bind) && litUnify(gos[1].Args[1], "φs1", bind), R, "directions", gos.Pos(p), "forwarder(s1,s2) and forwarder(s2,s1)", "the two forwarders do not connect s1->s2 and s2->s1: "+argsOf(gos))
+			r.Check(hasAtomB(gos[1].Guard, "φs2 != φs1", bind) && !hasAtomB(gos[0].Guard, "φs2 != φs1", bind), R, "second-direction-iff-distinct", gos.Pos(p), "second direction only when s1 != s2", "the reverse forwarder is not conditional on s2 != s1 (a loopback device would forward twice)")
 		}
 		for _, c := range [][2]string{{"ErrClosed", ""}, {"ErrBadProto", ""}, {"ErrNotRaw", ""}} {
 			ret := append(dv.Ev("return", "").Arg(0, c[0]), dv.Ev("callee-return", "").Arg(0, c[0])...)
@@ -398,9 +399,10 @@ func runC09(p *Prog, r *Report) {
 			}
 		}
 		if len(bad) == 1 {
-			dom := map[string][]int64{"$info1.Self": {1, 2}, "$info1.Peer": {1, 2}, "$info2.Self": {1, 2}, "$info2.Peer": {1, 2}}
-			res := ComparePred(bad[0].In.Block(), dom, []string{"φs1 != nil", "φs2 != nil", "arg1 != nil", "arg2 != nil"}, func(env map[string]int64) bool {
-				return env["$info1.Self"] != env["$info2.Peer"] || env["$info2.Self"] != env["$info1.Peer"]
+			i1, i2 := litSubst("$info1", bind), litSubst("$info2", bind)
+			dom := map[string][]int64{i1 + ".Self": {1, 2}, i1 + ".Peer": {1, 2}, i2 + ".Self": {1, 2}, i2 + ".Peer": {1, 2}}
+			res := ComparePred(bad[0].In.Block(), dom, []string{litSubst("φs1 != nil", bind), litSubst("φs2 != nil", bind), "arg1 != nil", "arg2 != nil"}, func(env map[string]int64) bool {
+				return env[i1+".Self"] != env[i2+".Peer"] || env[i2+".Self"] != env[i1+".Peer"]
 			})
 			r.Check(res.OK && res.Undec == "", R, "mismatch-predicate", p.InstrPos(bad[0].In), "ErrBadProto iff the sockets are not each other's peer", "Device's protocol-compatibility test is wrong: "+res.Counter+res.Undec)
 		}
